@@ -1214,3 +1214,22 @@ func (c *Ctx) withRegionUp(root *ssa.Function, f func()) {
 	defer func() { core.DeepUp = saved }()
 	f()
 }
+
+// regionFuncsSorted: the functions of the region of root in a stable order.
+func (c *Ctx) regionFuncsSorted(root *ssa.Function) []*ssa.Function {
+	var fns []*ssa.Function
+	for f := range c.regionOf(root) {
+		fns = append(fns, f)
+	}
+	sort.Slice(fns, func(i, j int) bool { return fk(fns[i]) < fk(fns[j]) })
+	return fns
+}
+
+// regionCallsTo: the call sites of f in the region of root.
+func (c *Ctx) regionCallsTo(root *ssa.Function, f *types.Func) []ssa.CallInstruction {
+	var out []ssa.CallInstruction
+	for _, fn := range c.regionFuncsSorted(root) {
+		out = append(out, core.CallsTo(fn, f)...)
+	}
+	return out
+}
